@@ -137,8 +137,7 @@ theorem max_contagion {xs : List Num} {r : Num} (h : Num.maxAll xs = .ok r) :
     have e : r = rest.foldl Num.maxStep x := by
       have h' : (Except.ok (rest.foldl Num.maxStep x) : Except Err Num) = .ok r := h
       injection h' with h'; exact h'.symm
-    rw [e, ← Bool.not_eq_true, Num.foldl_maxStep_isExact]
-    simp
+    rw [e]; exact Num.foldl_maxStep_inexact_iff rest x
 
 theorem min_contagion {xs : List Num} {r : Num} (h : Num.minAll xs = .ok r) :
     r.isExact = false ↔ ∃ y ∈ xs, y.isExact = false := by
@@ -148,8 +147,7 @@ theorem min_contagion {xs : List Num} {r : Num} (h : Num.minAll xs = .ok r) :
     have e : r = rest.foldl Num.minStep x := by
       have h' : (Except.ok (rest.foldl Num.minStep x) : Except Err Num) = .ok r := h
       injection h' with h'; exact h'.symm
-    rw [e, ← Bool.not_eq_true, Num.foldl_minStep_isExact]
-    simp
+    rw [e]; exact Num.foldl_minStep_inexact_iff rest x
 
 example : ∃ f, Num.maxAll [.int 3, .real 0.5, .rat 1 2] = .ok (.real f) := ⟨_, rfl⟩
 
